@@ -1657,3 +1657,33 @@ def mapped_list(fn: ast.AST, target_src: str) -> Optional[Tuple[str, ast.AST, st
                         val = ast.IfExp(test=ast.Constant(value=True), body=val, orelse=extra)    # alternatives, read with conditional_defs_expr
                     return src(lps[0].iter), val, lps[0].target.id
     return None
+
+
+def check_finder_receivers(col, rule: str, repo: Repo):
+    """Plug-in calls (e.Jets(..), j.getAttributeFloat(..), the refusal of the templated getAttribute, metadata methods) are recognised by name.
+    A method-style call must be recognised whatever expression its receiver is: a test on the receiver's syntactic form lets
+    `p.parent().getAttribute('x')` through as an ordinary method call where `p.getAttribute('x')` is refused / rewritten."""
+    from sa.core.paths import guards, parent_map
+    c = repo.find_class("cpp_ast_finder")
+    v = c.methods.get("visit_Call")
+    if v is None:
+        raise AnalysisError("cpp_ast_finder.visit_Call not found")
+    pm = parent_map(v.node)
+    tries = [x for x in walk_no_nested(v.node) if isinstance(x, ast.Call) and call_name(x) == "try_call" and x.args]
+    restricted = []
+    n_method_style = 0
+    for t in tries:
+        site_guards = {(src(g), tr) for g, tr in guards(v.node, t, pm)}
+        # the name that is looked up, with the conditions under which it is the callee's attribute name (written at the call, or chosen first)
+        for val, gs in conditional_defs(v.node, t.args[0]):
+            if not src(val).endswith(".attr"):
+                continue
+            n_method_style += 1
+            for s_, tr in set(gs) | site_guards:
+                if tr and re.search(r"\.value\b", s_) and ("ast.Name" in s_ or "isinstance" in s_ or "type(" in s_):
+                    restricted.append(s_)
+    if not n_method_style:
+        raise AnalysisError("cpp_ast_finder.visit_Call: no try_call(<callee>.attr, ..) for method-style calls")
+    col.add(rule, "cpp_ast_finder.visit_Call", "method-style-call-recognised-for-every-receiver", not restricted,
+            f"method-style plug-in calls are looked up only under {sorted(set(restricted))}: a call on any other receiver (p.parent().getAttribute('x'), "
+            "jets.First().getAttributeFloat('w')) is left as an ordinary method call - the refusal / rewriting silently does not happen", v.loc)
